@@ -204,7 +204,9 @@ def check_guards(ctx):
                     if blk is None:
                         continue
                     idx = blk[3]
-                    skippers = [s for s in lp.body[:idx] for x in A.walk_local(s) if isinstance(x, (ast.Continue, ast.Break))]
+                    # (an `if c: continue` whose negation is part of this raise's own firing condition is accounted for there)
+                    own_ifs = {id(A.parent(t)) for t, p in own_tests if isinstance(A.parent(t), ast.If)}
+                    skippers = [s for s in lp.body[:idx] if id(s) not in own_ifs for x in A.walk_local(s) if isinstance(x, (ast.Continue, ast.Break))]
                     if skippers:
                         best_loop_problem = (skippers[0], "an earlier `continue`/`break` in the loop body lets some names skip the check")
                         continue
@@ -370,6 +372,22 @@ def check_order(ctx):
     want = canon(parse("list(self._nonlinear_equiv_units.keys()) + list(self._linear_equiv_units.keys()) + list(self._v0_offsets_equiv_units)"))
     want2 = canon(parse("list(self._nonlinear_equiv_units.keys()) + list(self._linear_equiv_units.keys()) + list(self._v0_offsets_equiv_units.keys())"))
     got = _concat_parts(rets[0].value) if len(rets) == 1 else None
+    if len(rets) == 1 and isinstance(rets[0].value, ast.Call) and A.call_name(rets[0].value) == "list" and len(rets[0].value.args) == 1:
+        # list(A | B | C): the keys of the merged mapping, first occurrence first - the same name order
+        parts = []
+
+        def flat(e):
+            if isinstance(e, ast.BinOp) and isinstance(e.op, ast.BitOr):
+                flat(e.left)
+                flat(e.right)
+            elif isinstance(e, ast.Dict) and all(k is None for k in e.keys):
+                for v in e.values:
+                    flat(v)
+            else:
+                parts.append(canon(e))
+        flat(rets[0].value.args[0])
+        if len(parts) == 3:
+            got = parts
     exp = ["self._nonlinear_equiv_units", "self._linear_equiv_units", "self._v0_offsets_equiv_units"]
     ctx.check(R, fn, "par_names order", got == exp, "par_names is built from %s, expected %s" % (got, exp), key="order")
     # the unit tables feeding it
